@@ -54,7 +54,7 @@ CHECKS['C18'] = dict(
    note=NOTE_COMMON + 'Interleavings are at the granularity of emitter-lock critical sections; one run per emitter.',
    technique='Coq proof (phase invariants of the emitter over all interleavings) + differential correspondence', ref='§6 C18')
 CHECKS['C09'] = dict(
-   text='Theorems over the Gallina model of MQ.frames2topicmsgs / topicmsgs2frames on the frame heap: decode(encode x) ~ x for every frame set and outputs_jpg, message layout 1-3 parts; '
+   text='Theorems over the Gallina model of MQ.frames2topicmsgs / topicmsgs2frames on the frame heap: decode(encode x) ~ x for every frame set and outputs_jpg, message layout 1-3 parts, jpg-or-pixels decided frame by frame (C09_encoding_decided_per_frame: with outputs_jpg unset, by whether that frame holds a jpg); '
         'JPEG and the JSON text codec enter as Section hypotheses; the model runs against the real functions (stand-in and real JPEG codec) on every run.',
    note=NOTE_COMMON + 'Hypotheses: an encoding starts with ff d8, decode(encode) keeps the declared shape, json_loads(json_dumps v) = v. JPEG numeric tolerance is checked on the implementation only.',
    technique='Coq proof (round trip over the heap model) + differential correspondence', ref='§6 C09')
